@@ -41,6 +41,41 @@ let next_exc () =
   let m = next_opt next_str in let c = next_opt next_zb in let d = next_opt next_int in
   construct e m c d
 
+let next_request () =
+    let meth = next_str () in let idtxt = next_str () in
+    let p = match next_int () with 0 -> POk | 1 -> PBadValidation | _ -> PBadOther in
+    let tg = match next_int () with
+      | 0 -> TUnknown
+      | 1 -> TFeature (next_kind ())
+      | 2 -> TCommandKnown (next_kind ())
+      | _ -> let tx = next_str () in TCommandUnknown (tx, -1) in
+    let cancelled = next_int () = 1 in
+    let o = match next_int () with
+      | 0 -> HRet
+      | 3 -> HRetUnser
+      | 1 -> (match next_exc () with
+              | COk x -> HRaiseRpc x
+              | _ -> HRaiseOther ([], -1))   (* the constructor raises inside the handler: any other exception *)
+      | _ -> let tx = next_str () in HRaiseOther (tx, -1) in
+    { q_method = meth; q_idtxt = idtxt; q_params = p; q_target = tg;
+      q_cancelled = cancelled; q_outcome = o }
+(* M: the reply, and what the requester's future fails with *)
+let put_reply = function
+  | SBroken -> put_int 0
+  | SNoReply -> put_int 3
+  | SReply RResult -> put_int 1
+  | SReply (RError e) -> put_int 2; put_rerror e;
+    put_from (from_error current_table base_entry e); put_spec_class e.r_code
+(* S *)
+let put_spec q =
+  put_bool (server_guard q);
+  (match spec_server q with
+   | None -> put_int 0
+   | Some EResult -> put_int 1
+   | Some (ECode c) -> put_int 2; put_zb c
+   | Some (EOwn (c, m, d)) -> put_int 3; put_zb c; put_nstr m; put_opt put_int d
+   | Some (ECodeText (c, tx)) -> put_int 4; put_zb c; put_nstr tx)
+
 let dispatch = function
   | "tables" ->      (* the executable guards on the regenerated table, and its names *)
     put_bool (table_ok current_table); put_bool (ctors_ok base_entry current_table);
@@ -60,37 +95,11 @@ let dispatch = function
           put_bool (x.x_class.e_reg && supports_code x.x_class x.x_code))
      | r -> put_cres r)
   | "srv" ->         (* method idtxt pstatus target cancelled outcome *)
-    let meth = next_str () in let idtxt = next_str () in
-    let p = match next_int () with 0 -> POk | 1 -> PBadValidation | _ -> PBadOther in
-    let tg = match next_int () with
-      | 0 -> TUnknown
-      | 1 -> TFeature (next_kind ())
-      | 2 -> TCommandKnown (next_kind ())
-      | _ -> let tx = next_str () in TCommandUnknown (tx, -1) in
-    let cancelled = next_int () = 1 in
-    let o = match next_int () with
-      | 0 -> HRet
-      | 3 -> HRetUnser
-      | 1 -> (match next_exc () with
-              | COk x -> HRaiseRpc x
-              | _ -> HRaiseOther ([], -1))   (* the constructor raises inside the handler: any other exception *)
-      | _ -> let tx = next_str () in HRaiseOther (tx, -1) in
-    let q = { q_method = meth; q_idtxt = idtxt; q_params = p; q_target = tg;
-              q_cancelled = cancelled; q_outcome = o } in
-    (* M: the reply, and what the requester's future fails with *)
-    (match server_reply current_table q with
-     | SBroken -> put_int 0
-     | SNoReply -> put_int 3
-     | SReply RResult -> put_int 1
-     | SReply (RError e) -> put_int 2; put_rerror e;
-       put_from (from_error current_table base_entry e); put_spec_class e.r_code);
-    (* S *)
-    put_bool (server_guard q);
-    (match spec_server q with
-     | None -> put_int 0
-     | Some EResult -> put_int 1
-     | Some (ECode c) -> put_int 2; put_zb c
-     | Some (EOwn (c, m, d)) -> put_int 3; put_zb c; put_nstr m; put_opt put_int d
-     | Some (ECodeText (c, tx)) -> put_int 4; put_zb c; put_nstr tx)
+    let q = next_request () in put_reply (server_reply current_table q); put_spec q
+  | "session" ->     (* k requests on one connection: the fold, then per request reply and reference *)
+    let qs = read_list next_request in
+    let rs = session_replies current_table qs in
+    put_int (List.length qs);
+    List.iter2 (fun r q -> put_reply r; put_spec q) rs qs
   | c -> failwith ("unknown command " ^ c)
 let () = main_loop dispatch
